@@ -184,7 +184,7 @@ def direct_metric_history(rng, keys):
     dim = rng.choice([1, 2, 3, 4])
     n = rng.choice([2, 2, 3, 4, 5, 8, 13, 30, 100, 400, 1500])
     x, off_class = make_positions(rng, dim, n)
-    parts = partition(rng, n, rng.choice([1, 1, 2, 3, 4, 6]))
+    parts = partition(rng, n, rng.choice([1, 1, 2, 3, 4, 6, 12]))  # 12: more chains than any small-batch threshold
     ro = rng.choice([0, 1, 5, 5, 50])
     if full_cov and ro == 0 and n < 4 * dim:
         ro = 5  # an unregularised covariance of few samples is singular (documented: only if guaranteed positive definite)
@@ -291,9 +291,11 @@ def direct_dual_history(rng, keys):
     from models import zoo
 
     dim = rng.choice([1, 2, 3])
+    # many chains with small step sizes: sums of per-chain log step sizes far outside exp's range (-745 .. 709)
+    many = rng.random() < 0.06
     spec = {"kind": "euclid", "dim": dim, "tuple_conv": False, "metric": {"type": "identity"},
-            "target": zoo.quartic_from_seed(rng, dim, scale=rng.choice([0.1, 1.0, 30.0]))}
-    restricted = rng.random() < 0.35
+            "target": zoo.quartic_from_seed(rng, dim, scale=rng.choice([0.1, 1.0, 30.0]) if not many else rng.choice([1e6, 1e8]))}
+    restricted = rng.random() < 0.35 and not many
     if restricted:
         # restricted support: energies beyond a bound are NaN (no error raised), so trial steps of the
         # initial step-size search can produce NaN energy changes; the bound is set per chain below
@@ -311,7 +313,7 @@ def direct_dual_history(rng, keys):
     custom_stat = rng.random() < 0.3  # non-default controlled statistic: the update is fed a decoy accept_stat as well
     extra = {"adapt_stat_func": _other_stat} if custom_stat else {}
     adapter = A.DualAveragingStepSizeAdapter(log_step_size_reducer=reducer, log_step_size_reg_target=fixed_target, **kw, **extra)
-    n_chain = rng.choice([1, 1, 2, 3, 5])
+    n_chain = rng.choice([1, 1, 2, 3, 5]) if not many else rng.choice([150, 400])
     desc = {"adapter": "dual", "reducer": red, "n_chain": n_chain, **kw, "reg_target": fixed_target, "custom_stat": custom_stat}
     states, smoothed = [], []
     lens = []
@@ -336,7 +338,7 @@ def direct_dual_history(rng, keys):
         reg_t = fixed_target if fixed_target is not None else math.log(10 * r)
         if abs(st["log_step_size_reg_target"] - reg_t) > 1e-12 * max(1, abs(reg_t)):
             return violation("reg-target", f"{PROP} reg-target", f"{desc}: regularisation target {st['log_step_size_reg_target']} != {reg_t}")
-        n = rng.choice([1, 2, 3, 10, 50, 300, 1500])
+        n = rng.choice([1, 2, 3, 10, 50, 300, 1500]) if not many else rng.choice([1, 2, 5])
         lens.append(n)
         style = rng.choice(["uniform", "zeros", "ones", "beta", "alternating"])
         if style == "uniform":
